@@ -1,10 +1,10 @@
 SPECIFICATION Spec
 CONSTANTS
-  Depth = 3
-  MaxStmts = 3
+  Depth = 2
+  MaxStmts = 2
   Contexts = {1, 2, 3, 4, 5, 6, 7, 8}
-  DeepContexts = {3}
-  DeepRed = {FALSE}
+  DeepContexts = {1, 2, 3, 4}
+  DeepRed = {FALSE, TRUE}
   SingleBreaksUpTo = 1
   Export = TRUE
 INVARIANT Inv
